@@ -129,7 +129,8 @@ def relational(report, progs, variants, base_label, names_fn=None, opts=None, ke
                 continue
             if same_text(base, c):
                 stats['identical_by_text'] += 1; continue
-            tasks.append(dict(pid=p.pid, ja=base.j, jb=c.j, names=names, label_a=base_label, label_b=label, opts=opts or {},
+            args_a = list(args_base) + [a for l2, a2, _ in pv[p.pid] if l2 == base_label for a in a2]
+            tasks.append(dict(pid=p.pid, ja=base.j, jb=c.j, names=names, label_a=base_label, label_b=label, opts=opts or {}, args_a=args_a,
                               src_a=reqsrc['%s@%s' % (p.pid, base_label)], src_b=reqsrc[rid], args_b=list(args_base) + list(args)))
     tmap = {(t['pid'], t['label_b']): t for t in tasks}
     t1 = time.time()
@@ -143,7 +144,7 @@ def relational(report, progs, variants, base_label, names_fn=None, opts=None, ke
             stats['disagreements_checked'] += 1
             key = (key_fn(r['pid'], r['label']) if key_fn else '%s@%s#%s' % (r['pid'], r['label'], code_hash(common.Compiled(t['jb']))))
             rep = dict(kind='tv-relational', pid=r['pid'], base=base_label, variant=r['label'], source_base=t['src_a'], source_variant=t['src_b'],
-                       args_variant=t['args_b'], initial_state=r['detail'].get('regs'), memory=r['detail'].get('mem'),
+                       args_variant=t['args_b'], args_base=t['args_a'], initial_state=r['detail'].get('regs'), memory=r['detail'].get('mem'),
                        differences=r['detail'].get('diffs'), termination=r['detail'].get('termination'),
                        code_base=common.Compiled(t['ja']).funcs, code_variant=common.Compiled(t['jb']).funcs)
             report.violation(key, '%s: %s vs %s differ on %s: %s' % (r['pid'], base_label, r['label'], r['detail'].get('regs'),
